@@ -6,7 +6,7 @@
 From Coq Require Import ZArith List Bool.
 From HV Require Import model.Export model.ExportNum model.ExportUF spec.ExportS spec.ExportCanon spec.ModelAttrsS
   gen.ModelAttrs proofs.ExportP proofs.ModelAttrsP proofs.ExportOrderP proofs.ExportNumP proofs.ExportCanonP
-  proofs.ExportUFP.
+  proofs.ExportUFP proofs.ExportKeysP.
 
 (* the union-find labelling names two ports alike exactly when the links join them *)
 Theorem C12_components : forall ls p q, rep ls p = rep ls q <-> conn ls p q.
@@ -165,6 +165,24 @@ Theorem C12_code_export_same_up_to_renaming :
   forall h, valid_b h = true -> canon Nat.eqb Z.eqb (export_code h) = canon port_eqb Z.eqb (export h).
 Proof. exact canon_code. Qed.
 Print Assumptions C12_code_export_same_up_to_renaming.
+
+(* order-hint keys are labels: clause 6 holds for the export under every injective labelling of the keyed
+   nodes (rl_region kappa relabels every key and every hint of the tree; the model itself uses the node index) *)
+Theorem C12_order_hints_any_key_labelling :
+  forall (kappa : Z -> Z) h, (forall a b, kappa a = kappa b -> a = b) ->
+    valid_b h = true -> valid_order_b h = true -> order_ports_b h = true ->
+    order_hints_complete_and_keyed h (rl_region kappa (export h)) = true.
+Proof. exact export_order_hints_any_labelling. Qed.
+Print Assumptions C12_order_hints_any_key_labelling.
+
+(* the comparison of the correspondence check (canon_full: link names, symbols and keys up to renaming) does
+   not see an injective relabelling of the keys, whatever the tree *)
+Theorem C12_comparison_blind_to_key_labelling :
+  forall (L Sy : Type) (leqb : L -> L -> bool) (seqb : Sy -> Sy -> bool) (kappa : Z -> Z) (m : eregion L Sy),
+    (forall a b, kappa a = kappa b -> a = b) ->
+    canon_full leqb seqb (rl_region kappa m) = canon_full leqb seqb m.
+Proof. exact @canon_full_relabel. Qed.
+Print Assumptions C12_comparison_blind_to_key_labelling.
 
 Theorem C12_metadata_carried :
   forall h, valid_b h = true -> metadata_carried h (export h) = true.
